@@ -511,6 +511,14 @@ class FileDomain(NormDomain):
                 sel = [k for k, x in enumerate(m) if x.v]
                 return (len(sel),), sel
             return None
+        # an open mesh (np.ix_): index arrays of shapes (n, 1) and (1, m) select the n x m block of their combinations
+        if len(items) == arr.ndim == 2 and all(isinstance(x, FArr) and x.ndim == 2 for x in items) and items[0].shape[1] == 1 and items[1].shape[0] == 1:
+            ri, ci = [self._int(c) for c in items[0].values()], [self._int(c) for c in items[1].values()]
+            if None in ri or None in ci:
+                return None
+            if any(not -arr.shape[0] <= i < arr.shape[0] for i in ri) or any(not -arr.shape[1] <= j < arr.shape[1] for j in ci):
+                raise AbsRaise('IndexError', node)
+            return (len(ri), len(ci)), [arr.flat_index((i % arr.shape[0], j % arr.shape[1])) for i in ri for j in ci]
         # pointwise indexing with one integer array per axis: a[rows, cols]
         if len(items) == arr.ndim >= 2 and all(isinstance(x, (FArr, Tup)) for x in items):
             lists = []
@@ -813,6 +821,15 @@ class FileDomain(NormDomain):
             return self.reshape(v, args[0] if len(args) == 1 else Tup(args), kwargs, node)
         if name == 'squeeze' and not args and not kwargs:
             return v.view(tuple(d for d in v.shape if d != 1))
+        if name == 'squeeze':
+            ax = kwargs.get('axis', args[0] if args else None)
+            axes = [self._int(ax)] if self._int(ax) is not None else ([self._int(x) for x in ax.items] if isinstance(ax, Tup) else [None])
+            if None in axes:
+                return Unknown('squeeze axis')
+            axes = [k % v.ndim for k in axes]
+            if any(v.shape[k] != 1 for k in axes):
+                raise AbsRaise('ValueError', node)
+            return v.view(tuple(d for k, d in enumerate(v.shape) if k not in axes))
         if name == 'transpose':
             perm = [self._int(a) for a in (args[0].items if len(args) == 1 and isinstance(args[0], Tup) else args)]
             if not perm:
@@ -878,7 +895,7 @@ class FileDomain(NormDomain):
         if name == 'dot' and args and isinstance(args[0], FArr):
             return self.matmul(v, args[0], node)
         if name == 'clip':
-            return Unknown('clip')
+            return self.np_array_fn('clip', v, [v] + list(args), kwargs, node)
         if name == '__len__':
             return Const(v.shape[0]) if v.ndim else Unknown('len of 0-d')
         return Unknown('array method %s' % name)
@@ -1059,6 +1076,21 @@ class FileDomain(NormDomain):
                 and not (set(kwargs) - {'optimize'}):
             spec = args[0].v.replace(' ', '')
             ops = list(args[1:])
+            if '...' in spec:
+                # expand the ellipsis to letters that are not used, right-aligned on each operand
+                ins_, _, out_ = spec.partition('->')
+                parts = ins_.split(',')
+                if len(parts) == len(ops):
+                    free = [c for c in 'ZYXWVUTSRQPONMLKJIHGFEDCBA' if c not in spec]
+                    nell = max([o.ndim - len(p.replace('...', '')) for p, o in zip(parts, ops) if '...' in p] + [0])
+                    ell = ''.join(free[:nell])
+                    parts = [p.replace('...', ell[len(ell) - (o.ndim - len(p.replace('...', ''))):]) if '...' in p else p for p, o in zip(parts, ops)]
+                    if '->' in spec:
+                        out_ = out_.replace('...', ell)
+                        spec = ','.join(parts) + '->' + out_
+                    else:
+                        letters = sorted(set(c for c in ''.join(parts) if c.isalpha() and c not in ell))
+                        spec = ','.join(parts) + '->' + ell + ''.join(c for c in letters if ''.join(parts).count(c) == 1)
             if '...' not in spec:
                 if '->' in spec:
                     ins, out = spec.split('->')
@@ -1090,6 +1122,61 @@ class FileDomain(NormDomain):
                             data.append(acc)
                         return FArr.of(oshape, data) if oshape else data[0]
             return Unknown('einsum with a subscript string that is not followed')
+        if dotted.startswith('numpy.random.') and dotted.rsplit('.', 1)[-1] in ('poisson', 'normal', 'random', 'uniform', 'standard_normal', 'rand', 'randn', 'binomial', 'gamma'):
+            # a draw: samples that are not followed, of the shape numpy gives them
+            nm = dotted.rsplit('.', 1)[-1]
+            size = kwargs.get('size')
+            npos = {'poisson': 1, 'normal': 2, 'uniform': 2, 'binomial': 2, 'gamma': 2, 'random': 0, 'standard_normal': 0}.get(nm)
+            if size is None and npos is not None and len(args) > npos:
+                size = args[npos]
+            if nm in ('rand', 'randn'):
+                size = Tup(list(args))
+            params = [a for a in (args[:npos] if npos is not None else []) if isinstance(a, FArr)]
+            if size is None or (isinstance(size, Const) and size.v is None):
+                if params:
+                    return FArr.of(params[0].shape, [Unknown('a random draw')] * params[0].size)
+                return Unknown('a random draw')
+            dims = [self._int(x) for x in (size.items if isinstance(size, Tup) else [size])]
+            if None in dims:
+                return Unknown('a random draw of a shape that is not followed')
+            return FArr.of(tuple(dims), [Unknown('a random draw')] * _size(dims))
+        if dotted == 'numpy.choose' and len(args) >= 2 and isinstance(args[0], FArr):
+            sel = args[0]
+            ch = args[1].items if isinstance(args[1], Tup) else (self.iterate(args[1], node) if isinstance(args[1], FArr) else None)
+            if ch is not None and all(isinstance(c, FArr) or self.is_cell(c) for c in ch) and all(self._int(x) is not None for x in sel.values()):
+                n = len(ch)
+
+                def pick(k, *cells):
+                    i = self._int(k)
+                    return cells[i] if 0 <= i < n else Junk('choose index out of range')
+                if any(not 0 <= self._int(x) < n for x in sel.values()):
+                    raise AbsRaise('ValueError', node)
+                return self.emap(pick, sel, *ch)
+            return Unknown('choose with a selector / choices that are not followed')
+        if dotted == 'numpy.ix_' and args and all(isinstance(a, FArr) and a.ndim == 1 for a in args):
+            n = len(args)
+            return Tup([a.view(tuple(a.size if k == i else 1 for k in range(n))) for i, a in enumerate(args)])
+        if dotted == 'numpy.roll' and len(args) >= 2 and isinstance(args[0], FArr):
+            a = args[0]
+            ax = kwargs.get('axis', args[2] if len(args) > 2 else Const(None))
+            sh = self._int(args[1])
+            if sh is not None and isinstance(ax, Const) and ax.v is None:
+                vals = a.values()
+                n = len(vals)
+                if n:
+                    k = sh % n
+                    vals = vals[n - k:] + vals[:n - k]
+                return FArr.of(a.shape, vals, a.dtype)
+            axk = self._int(ax)
+            if sh is not None and axk is not None:
+                axk %= a.ndim
+                order = []
+                for idx in itertools.product(*[range(d) for d in a.shape]):
+                    src = list(idx)
+                    src[axk] = (idx[axk] - sh) % a.shape[axk]
+                    order.append(a.flat_index(src))
+                return FArr.of(a.shape, [a.boxes[k].v for k in order], a.dtype)
+            return Unknown('roll by an amount / along an axis that is not followed')
         if dotted == 'struct.Struct' and args and isinstance(args[0], Const) and isinstance(args[0].v, (str, bytes)):
             return StructV(args[0].v if isinstance(args[0].v, str) else args[0].v.decode())
         a0 = args[0] if args else None
@@ -1104,6 +1191,8 @@ class FileDomain(NormDomain):
         if dotted == 'numpy.dtype' and args:
             dt = as_dtype(a0)
             return dt if dt is not None else Unknown('dtype')
+        if np_ in ('atleast_1d', 'atleast_2d', 'atleast_3d') and len(args) > 1 and all(isinstance(a, FArr) for a in args):
+            return Tup([self.np_array_fn(np_, a, [a], {}, node) for a in args], 'list')
         if np_ is not None and isinstance(a0, FArr):
             r = self.np_array_fn(np_, a0, args, kwargs, node)
             if r is not None:
@@ -1356,6 +1445,34 @@ class FileDomain(NormDomain):
 
     def matmul(self, a, b, node):
         it = self.interp
+        if a.ndim > 2 or b.ndim > 2:
+            # stacks of matrices: the product over the last two axes, leading axes broadcast
+            A = a if a.ndim >= 2 else a.view((1, a.size))
+            B = b if b.ndim >= 2 else b.view((b.size, 1))
+            la, lb = A.shape[:-2], B.shape[:-2]
+            nd = max(len(la), len(lb))
+            la_, lb_ = (1,) * (nd - len(la)) + la, (1,) * (nd - len(lb)) + lb
+            if any(x != y and 1 not in (x, y) for x, y in zip(la_, lb_)) or A.shape[-1] != B.shape[-2]:
+                raise AbsRaise('ValueError', node)
+            lead = tuple(max(x, y) for x, y in zip(la_, lb_))
+            n, k, m = A.shape[-2], A.shape[-1], B.shape[-1]
+            out = []
+            for idx in itertools.product(*[range(d) for d in lead]):
+                ia = [0 if d == 1 else i for i, d in zip(idx, la_)][nd - len(la):]
+                ib = [0 if d == 1 else i for i, d in zip(idx, lb_)][nd - len(lb):]
+                for i in range(n):
+                    for j in range(m):
+                        acc = Const(0)
+                        for q in range(k):
+                            acc = self.cell_binop(ast.Add(), acc, self.cell_binop(ast.Mult(), A.boxes[A.flat_index(ia + [i, q])].v, B.boxes[B.flat_index(ib + [q, j])].v, node), node)
+                        out.append(acc)
+            shape = lead + (n, m)
+            res = FArr.of(shape, out)
+            if a.ndim == 1:
+                res = res.view(lead + (m,))
+            elif b.ndim == 1:
+                res = res.view(lead + (n,))
+            return res
         A = a if a.ndim == 2 else a.view((1, a.size))
         B = b if b.ndim == 2 else b.view((b.size, 1))
         if A.ndim != 2 or B.ndim != 2 or A.shape[1] != B.shape[0]:
@@ -1609,6 +1726,22 @@ class FileDomain(NormDomain):
             if f == 'argwhere':
                 return FArr.of((len(hits), a.ndim), [Const(i) for h in hits for i in h], DType('i', 8))
             return Tup([FArr.of((len(hits),), [Const(h[k]) for h in hits], DType('i', 8)) for k in range(a.ndim)])
+        if f == 'clip' and (len(args) == 3 or {'a_min', 'a_max'} & set(kwargs)):
+            lo = kwargs.get('a_min', args[1] if len(args) > 1 else Const(None))
+            hi = kwargs.get('a_max', args[2] if len(args) > 2 else Const(None))
+
+            def clip(x, l, h):
+                if isinstance(x, (Junk, Unknown)) or is_nan(x):
+                    return x
+                if isinstance(x, Const) and all(isinstance(b, Const) for b in (l, h)):
+                    v = x.v
+                    if l.v is not None:
+                        v = max(v, l.v)
+                    if h.v is not None:
+                        v = min(v, h.v)
+                    return Const(v)
+                return Unknown('a clipped sample (bounds against a symbolic value)')
+            return self.emap(clip, a, lo, hi)
         if f == 'nan_to_num':
             return Unknown('nan_to_num')
         if f == 'broadcast_to' and len(args) == 2:
